@@ -42,6 +42,8 @@ CHROMATIC = {b'C': 0, b'C#': 1, b'D-': 1, b'D': 2, b'D#': 3, b'E-': 3, b'E': 4, 
 
 
 def check(ctx, rep):
+    from ..optargs import check as _optargs
+    _optargs(ctx, rep, ['pcbasic/basic/sound.py'], 2)
     from . import c33 as _c33, _share as _sh
     _sh.share(ctx, rep, _c33, ('numbers.',), 'numbers in a music macro string (literal, =variable;, =VARPTR$) are read by the shared macro-language parser with their sign and type')
     notes = ctx.const(S, 'NOTES')
@@ -130,7 +132,7 @@ def check(ctx, rep):
     rep.ob('malformed.unknown-note', 'an unknown note name (e.g. B#) raises IFC', h is not None and [ctx.basic_error_code(r) for r in own_nodes(h) if isinstance(r, ast.Raise)] == ['ILLEGAL_FUNCTION_CALL'], '', ctx.where(pl))
 
 
-def variants(ctx):
+def _variants0(ctx):
     Va = mu.Variant
 
     def in_fn(f_name, f):
@@ -162,3 +164,10 @@ def _unwrap_keyerror(fn):
                         b[i:i + 1] = s.body
                         return True
     return False
+
+
+def variants(ctx):
+    return _variants0(ctx) + [
+        mu.Variant('sound-voice-defaulted-by-truthiness', 'break', 'pcbasic/basic/sound.py',
+                   lambda tree: (lambda fn: mu.insert_before(fn, lambda st: isinstance(st, ast.Expr) and norm(st.value) == 'list(args)', 'voice = voice or 0'))(mu.find_def(tree, 'Sound.sound_')), expect='arguments.zero-is-not-omitted'),
+    ]
